@@ -12,7 +12,9 @@ EXTENDS Optimizer, TraceLib
 TReset ==
   /\ IsEvent("Reset")
   /\ phase' = "New" /\ pol' = Ev.pol /\ box' = Ev.box /\ max' = Ev.max
-  /\ obj' = [quad |-> Ev.kind = "quad", inact |-> Ev.inact, conv |-> Ev.opt # "NewtonBacktrack"]
+  /\ obj' = [quad |-> Ev.kind = "quad", inact |-> Ev.inact,
+              conv |-> IF Ev.opt = "NewtonBacktrack" THEN "none"
+                       ELSE IF Ev.opt \in {"Brent", "GoldenSection"} THEN "x" ELSE "f"]
   /\ cnt' = 0 /\ steps' = 0 /\ tol' = FALSE /\ s0' = NoRank /\ held' = NoRank /\ pend' = 0 /\ lo' = NoRank /\ touched' = FALSE
   /\ back' = "New" /\ rep' = NoRep /\ br' = NoRep
   /\ infeas' = FALSE /\ overrun' = FALSE /\ lateStep' = FALSE /\ badRaise' = FALSE /\ earlyOk' = FALSE
@@ -40,7 +42,7 @@ TraceNext == \/ TReset \/ TOptEarly \/ TInitBegin \/ TEvals \/ TInitEnd \/ TClon
 TraceInit ==
   /\ l = 1
   /\ phase = "Dead" /\ pol = "ignore" /\ box = <<>> /\ max = 0
-  /\ obj = [quad |-> FALSE, inact |-> FALSE, conv |-> FALSE]
+  /\ obj = [quad |-> FALSE, inact |-> FALSE, conv |-> "none"]
   /\ cnt = 0 /\ steps = 0 /\ tol = FALSE /\ s0 = NoRank /\ held = NoRank /\ pend = 0 /\ lo = NoRank /\ touched = FALSE
   /\ back = "New" /\ rep = NoRep /\ br = NoRep
   /\ infeas = FALSE /\ overrun = FALSE /\ lateStep = FALSE /\ badRaise = FALSE /\ earlyOk = FALSE
